@@ -498,3 +498,9 @@ PROPS["C02"].jobs += [
     Job("omp-d3", sched(1, 3), quick=(2, 500, 100), thorough=(16, 3000, 100)),
     Job("omp-tsm-d3", tsm(1, 3), quick=(1, 500, 100), thorough=(16, 3000, 100)),
 ]
+
+
+# ---- target/source trees in C13 (rebuild), C07 (structure of both trees), C06 (construction of both trees) ---------------------------------
+PROPS["C13"].jobs += [Job("tsm-seq-d3", tsm(0, 3), quick=(3, 450, 100), thorough=(16, 3000, 100)), Job("tsm-seq-d2", tsm(0, 2), quick=(2, 450, 100), thorough=(16, 3000, 100))]
+PROPS["C07"].jobs += [Job("tsm-seq-d3", tsm(0, 3), quick=(2, 600, 100), thorough=(16, 3000, 100))]
+PROPS["C06"].jobs += [Job("tsm-seq-d3", tsm(0, 3), quick=(2, 600, 100), thorough=(16, 3000, 100)), Job("tsm-seq-d1", tsm(0, 1), quick=(1, 600, 100), thorough=(16, 3000, 100))]
